@@ -12,3 +12,4 @@ import Proofs.C04Date
 import Proofs.C04Spec17
 import Proofs.C04Order
 import Proofs.C04Fix2
+import Proofs.C04Fix3
